@@ -1055,3 +1055,13 @@ M("c17-hessian-not-negated-for-max", "C17", SCIPY,
             compiled_hess''', '''            compiled_hess''', "R17.4", "solve_scipy")
 M("c17-sparse-hessian-scatter", "C17", AUTODIFF,
   '''                    result[indices, indices] = np.exp(x[indices])''', '''                    result[indices, :] = np.exp(x[indices])''', "R17.3", "hess_exp_sparse")
+
+
+# ----------------------------------------------------------------------------- mutants the checker can only answer "not decided" for
+# The rules behind these four are text pins (an absent re-validation call, an index pattern inside a closure, the text of a
+# two-way sum, one answer form per kind): under the policy "a shape rule only discharges once the function's text has
+# changed" (DESIGN 9.8) they cannot accuse.  The self-test requires that such a mutant is NOT silently passed: the run
+# must end in "cannot decide" (exit 2).
+for _m in MUTANTS:
+    if _m["id"] in ("c02-dot-both-case-drops-one", "c08-no-revalidation", "c17-mirror-transposed-source", "c15-iterative-degree-linear-combination-constant"):
+        _m["expect"] = "analysis-error"
